@@ -16,9 +16,11 @@
    further colons, empty parts -- the last outside this grammar), 43dd02f (whitespace before
    ")"), 541b0f5 (architectures() keeps the "!").  For the code before them see C10_prefix_epoch_refuted,
    C10_prefix_space_refuted and C10_prefix_arch_negation_refuted below. *)
-From V.model Require Import Base RelLex RelParse RelAcc RelGrammar.
+From V.model Require Import Base RelLex RelParse RelAcc RelGrammar RelGrammarAll.
 From V.model Require RelParsePre RelLossy.
 From V.proofs Require Import RelGrammarLexP RelGrammarParseP RelGrammarAccP RelGrammarLossyP.
+From V.proofs Require Import RelLexInvP RelGrammarAllParseP RelGrammarAllInvP RelGrammarAllAccP RelAccStructureP.
+From V.model Require RelEdit.
 
 (* 1. the token partition of a rendered well-formed field *)
 Theorem C10_lex : forall allow (f : rfield), wf_rfield allow f = true -> rlex (rrender f) = Ok (rtoks f).
@@ -247,6 +249,133 @@ Example C10_lossy_ex :
 Proof.
   split; [split; [reflexivity|]; split; [reflexivity|]; eexists; split; vm_compute; reflexivity|].
   split; [reflexivity|]. split; [reflexivity|]. eexists. split; [vm_compute; reflexivity|]. split; vm_compute; reflexivity.
+Qed.
+
+(* 9. THE IMAGE OF THE READER.  The fields of sections 1-8 are the Policy grammar; the reader accepts
+   more without reporting an error.  RelGrammarAll.afield are the LIBERAL layouts: white space as
+   token lists (CR included), any run of "<" ">" "=" (also none) as operator, any non-empty run of
+   IDENT and ":" tokens as version, any sequence of "!" and names inside [...] (also none), any
+   sequence of terms  name | "!" ws name  inside <...> (also none), any run of IDENT and ":" inside
+   ${...}.  [awf] = the right shape + a token list the lexer produces ([lexable], characterised in
+   proofs/RelLexInvP.v: lexable ts <-> rlex (concat texts) = Ok ts). *)
+
+(* 9a. completeness: every text read without error IS the rendering of a liberal layout, whose
+   tree is the tree read and whose content (with the accessors' documented panics) is what the
+   accessors report -- both settings of allow_substvar, every string *)
+Theorem C10_image : forall (s : str) (allow : bool) (t : rtree), parse_relaxed s allow = Ok (t, 0) ->
+  exists g : afield, awf allow g = true /\ arender g = s /\ atree_of g = t /\ racc t = acontent g.
+Proof. exact reader_image. Qed.
+Check C10_image : forall (s : str) (allow : bool) (t : rtree), parse_relaxed s allow = Ok (t, 0) ->
+  exists g : afield, awf allow g = true /\ arender g = s /\ atree_of g = t /\ racc t = acontent g.
+Print Assumptions C10_image.
+
+(* 9b. soundness: every liberal layout is read back, without error, to its own tree *)
+Theorem C10_image_sound : forall (allow : bool) (g : afield), awf allow g = true ->
+  parse_relaxed (arender g) allow = Ok (atree_of g, 0) /\ text (atree_of g) = arender g /\
+  racc (atree_of g) = acontent g.
+Proof. exact liberal_sound. Qed.
+Check C10_image_sound : forall (allow : bool) (g : afield), awf allow g = true ->
+  parse_relaxed (arender g) allow = Ok (atree_of g, 0) /\ text (atree_of g) = arender g /\
+  racc (atree_of g) = acontent g.
+Print Assumptions C10_image_sound.
+
+(* 9c. hence: a text is read without error exactly when it is the rendering of a liberal layout,
+   and the layout is unique (token for token) *)
+Theorem C10_image_iff : forall (s : str) (allow : bool),
+  (exists t, parse_relaxed s allow = Ok (t, 0)) <-> (exists g, awf allow g = true /\ arender g = s).
+Proof.
+  intros s allow. split.
+  - intros (t & H). destruct (reader_image s allow t H) as (g & Hw & Hr & _). exists g. split; assumption.
+  - intros (g & Hw & <-). exists (atree_of g). apply (liberal_sound allow g Hw).
+Qed.
+Check C10_image_iff : forall (s : str) (allow : bool),
+  (exists t, parse_relaxed s allow = Ok (t, 0)) <-> (exists g, awf allow g = true /\ arender g = s).
+Print Assumptions C10_image_iff.
+
+Theorem C10_image_unique : forall allow g1 g2, awf allow g1 = true -> awf allow g2 = true ->
+  arender g1 = arender g2 -> atoks g1 = atoks g2 /\ atree_of g1 = atree_of g2.
+Proof. exact liberal_unique. Qed.
+Check C10_image_unique : forall allow g1 g2, awf allow g1 = true -> awf allow g2 = true ->
+  arender g1 = arender g2 -> atoks g1 = atoks g2 /\ atree_of g1 = atree_of g2.
+Print Assumptions C10_image_unique.
+
+(* 9d. the well-formed fields of this property are liberal layouts, with the same text, tokens, tree
+   and content *)
+Theorem C10_image_embeds : forall allow (f : rfield), wf_rfield allow f = true ->
+  awf allow (lib_of f) = true /\ arender (lib_of f) = rrender f /\ atoks (lib_of f) = rtoks f /\
+  atree_of (lib_of f) = rtree_of f /\ acontent (lib_of f) = Ok (rcontent_acc f).
+Proof. exact lib_of_agrees. Qed.
+Check C10_image_embeds : forall allow (f : rfield), wf_rfield allow f = true ->
+  awf allow (lib_of f) = true /\ arender (lib_of f) = rrender f /\ atoks (lib_of f) = rtoks f /\
+  atree_of (lib_of f) = rtree_of f /\ acontent (lib_of f) = Ok (rcontent_acc f).
+Print Assumptions C10_image_embeds.
+
+(* 9e. the token lists the lexer produces *)
+Theorem C10_lexable : forall ts : list rtoken, lexable ts = true <-> rlex (rttext_of ts) = Ok ts.
+Proof. exact lexable_iff. Qed.
+Check C10_lexable : forall ts : list rtoken, lexable ts = true <-> rlex (rttext_of ts) = Ok ts.
+Print Assumptions C10_lexable.
+
+(* 9f. The accessor model of the cone of C11 (RelEdit.structure: the list of entries of alternatives,
+   version text as written) agrees with racc on EVERY tree -- parsed with or without errors, edited,
+   built by hand: whenever racc yields a value, structure yields the same entries and
+   alternatives, field by field (rel_agree: names, qualifiers, architectures and profiles equal, the
+   version equal up to debversion's re-printing).  With 9a: the structure of every error-free text
+   is the content of its liberal layout. *)
+Theorem C10_acc_is_structure : forall (t : rtree) a, racc t = Ok a ->
+  exists S, RelEdit.structure t = Ok S /\ Forall2 (Forall2 rel_agree) S (fst a) /\
+            map (@length _) S = map (@length _) (fst a).
+Proof.
+  intros t a H. destruct (racc_structure t a H) as (S & E & HS). exists S. split; [exact E|]. split; [exact HS|].
+  apply (racc_structure_shape t a S H E).
+Qed.
+Check C10_acc_is_structure : forall (t : rtree) a, racc t = Ok a ->
+  exists S, RelEdit.structure t = Ok S /\ Forall2 (Forall2 rel_agree) S (fst a) /\
+            map (@length _) S = map (@length _) (fst a).
+Print Assumptions C10_acc_is_structure.
+
+Theorem C10_image_structure : forall (s : str) (allow : bool) (t : rtree) a,
+  parse_relaxed s allow = Ok (t, 0) -> racc t = Ok a ->
+  exists (g : afield) S, awf allow g = true /\ arender g = s /\ atree_of g = t /\ acontent g = Ok a /\
+    RelEdit.structure t = Ok S /\ Forall2 (Forall2 rel_agree) S (fst a).
+Proof.
+  intros s allow t a Hp Ha. destruct (reader_image s allow t Hp) as (g & Hw & Hr & Ht & Hc).
+  destruct (racc_structure t a Ha) as (S & E & HS). exists g, S. repeat split; try assumption. rewrite <- Hc. exact Ha.
+Qed.
+Check C10_image_structure : forall (s : str) (allow : bool) (t : rtree) a,
+  parse_relaxed s allow = Ok (t, 0) -> racc t = Ok a ->
+  exists (g : afield) S, awf allow g = true /\ arender g = s /\ atree_of g = t /\ acontent g = Ok a /\
+    RelEdit.structure t = Ok S /\ Forall2 (Forall2 rel_agree) S (fst a).
+Print Assumptions C10_image_structure.
+
+(* liberal layouts outside the Policy grammar: "a []", "a <>", "a (= 5::)", "a (> 1)", "a ( 1 )":
+   each is well-formed as a liberal layout, read without error, and the accessors give the content
+   shown (version() panics when the operator is not one of the five: Panic 11) *)
+Definition C10_lib_mk q v a p : afield := mk_afield [] (AEntry (mk_arel [97%N] q v a p []) []) [].
+Definition C10_sp : list rtoken := [(WHITESPACE, [32%N])].
+Example C10_image_ex :
+  let e1 := C10_lib_mk None None (Some (mk_agroup C10_sp [] [])) [] in
+  let e2 := C10_lib_mk None None None [mk_pgroup C10_sp [] []] in
+  let e3 := C10_lib_mk None (Some (mk_aver C10_sp [] [61%N] C10_sp [VId [53%N]; VColon; VColon] [])) None [] in
+  let e4 := C10_lib_mk None (Some (mk_aver C10_sp [] [62%N] C10_sp [VId [49%N]] [])) None [] in
+  let e5 := C10_lib_mk None (Some (mk_aver C10_sp C10_sp [] [] [VId [49%N]] C10_sp)) None [] in
+  map arender [e1; e2; e3; e4; e5] =
+    [[97; 32; 91; 93]; [97; 32; 60; 62]; [97; 32; 40; 61; 32; 53; 58; 58; 41]; [97; 32; 40; 62; 32; 49; 41]; [97; 32; 40; 32; 49; 32; 41]]%N /\
+  map (awf false) [e1; e2; e3; e4; e5] = [true; true; true; true; true] /\
+  map (fun g => parse_relaxed (arender g) false) [e1; e2; e3; e4; e5] = map (fun g => Ok (atree_of g, 0)) [e1; e2; e3; e4; e5] /\
+  map acontent [e1; e2; e3] =
+    [Ok ([[mk_relc [97%N] None None (Some []) []]], []); Ok ([[mk_relc [97%N] None None None [[]]]], []);
+     Ok ([[mk_relc [97%N] None (Some (VEq, [53; 58; 58]%N)) None []]], [])] /\
+  map acontent [e4; e5] = [Panic 11%N; Panic 11%N].
+Proof. vm_compute. repeat split. Qed.
+(* ... and odd but error-free text: "\r a:b(=<1:)[!! x\t!]<a!b ! c><>|z , ${::a:},," *)
+Example C10_image_ex_text :
+  let s := [13; 32; 97; 58; 98; 40; 61; 60; 49; 58; 41; 91; 33; 33; 32; 120; 9; 33; 93; 60; 97; 33; 98; 32; 33; 32; 99; 62; 60; 62; 124; 122; 32; 44; 32; 36; 123; 58; 58; 97; 58; 125; 44; 44]%N in
+  (exists t, parse_relaxed s true = Ok (t, 0)) /\ (exists g, awf true g = true /\ arender g = s).
+Proof.
+  cbv zeta. assert (H : exists t, parse_relaxed [13; 32; 97; 58; 98; 40; 61; 60; 49; 58; 41; 91; 33; 33; 32; 120; 9; 33; 93; 60; 97; 33; 98; 32; 33; 32; 99; 62; 60; 62; 124; 122; 32; 44; 32; 36; 123; 58; 58; 97; 58; 125; 44; 44]%N true = Ok (t, 0))
+    by (eexists; vm_compute; reflexivity).
+  split; [exact H|]. apply C10_image_iff. exact H.
 Qed.
 
 (* Non-vacuity: a field using every construct and every whitespace slot is well-formed.
